@@ -2,3 +2,4 @@ pub mod logsim;
 pub mod routersim;
 pub mod streamsim;
 pub mod netsim;
+pub mod clientsim;
